@@ -815,8 +815,8 @@ def analyse_construct(prog, F, W, fn):
             # numbers of vertices and edges only (e.g. "m < n, so the graph is a forest"), evaluate it on the small-graph grid: it must not hold
             # for any (m, n) with m >= 3, because such a graph can contain a triangle (plus isolated vertices), which would be retained whole
             pca = ex.path_condition(cfg, ae, reach_leaf)
-            opq = [fn.nodes[a_[1]] for a_ in ex.f_atoms(pca) if isinstance(a_, tuple) and a_[0] == 'opaque' and loop.body is not None and
-                   loop.body.is_ancestor_of(fn.nodes[a_[1]])]
+            opq = [fn.nodes[a_[1]] for a_ in ex.f_atoms(pca) if isinstance(a_, tuple) and a_[0] == 'opaque' and a_[1] in fn.nodes and loop.body is not None and
+                   (loop.body.is_ancestor_of(fn.nodes[a_[1]]) or fn.nodes[a_[1]].enclosing('VarDecl') is not None)]
             decided = False
             for o_ in opq:
                 ov = ex.var_of(o_)
